@@ -264,6 +264,21 @@ Example C16_rejected_nonmerge_nonvacuous :
 Proof. exact rejected_nonmerge_nonvacuous. Qed.
 Print Assumptions C16_rejected_nonmerge_nonvacuous.
 
+(* the rejections of remove/swap that depend on references (ContainerSymbol still imported from,
+   RoutineSymbol that is a member of a GenericInterfaceSymbol), on TAGGED symbols: nothing changes,
+   in particular not the tag map (C16_rejected_unchanged_partial is about the whole state) *)
+Example C16_rejected_remove_tagged_nonvacuous :
+  let st := run (init_state 1) ops_E4 in
+  step st (ORemove (TSlot 0) 0) = (st, RErr EValue) /\
+  step st (ORemove (TSlot 0) 2) = (st, RErr EValue) /\
+  step st (OSwap (TSlot 0) 0 "MOD1" sp_cont) = (st, RErr EValue) /\
+  snd (step st (OLookupTag (TSlot 0) "c1")) = RSym 0 /\
+  snd (step st (OLookupTag (TSlot 0) "r1")) = RSym 2 /\
+  snd (step st (OFindOrCreateTag (TSlot 0) "c1" "mod1" false sp_cont true)) = RSym 0 /\
+  snd (step (run st [ORemove (TSlot 0) 3; ORemove (TSlot 0) 2]) (OLookupTag (TSlot 0) "r1")) = RErr EKey.
+Proof. exact rejected_remove_tagged_nonvacuous. Qed.
+Print Assumptions C16_rejected_remove_tagged_nonvacuous.
+
 Example C16_fresh_name_nonvacuous :
   let st := run (init_state 2)
                 [OAdd (TSlot 1) "a" sp_data ""; OAdd (TSlot 0) "A_1" sp_data ""; ONewTable;
